@@ -25,6 +25,8 @@ func coqOp0(o Op) string {
 	switch o.Kind {
 	case "Send":
 		return fmt.Sprintf("Send %s %s %s %s %s", zi(o.Sender), zi(o.Dest), lib.Z(o.Amount), lib.Z(o.Fee), zi(o.Token))
+	case "SendP":
+		return fmt.Sprintf("SendP %s %s %s %s %s", zi(o.Sender), zi(o.Dest), lib.Z(o.Amount), lib.Z(o.Fee), zi(o.Token))
 	case "Cancel":
 		return fmt.Sprintf("Cancel %s %s", lib.ZU(o.ID), zi(o.Who))
 	case "IncreaseFee":
@@ -72,7 +74,10 @@ func coqTxs(l []Tx) string {
 }
 
 func coqObs(ok bool, s Snap) string {
-	var bs, bb, cs, sn, fm, pd, bl, ev []string
+	var bs, bb, cs, sn, fm, pd, bl, ev, rl []string
+	for _, id := range s.Relation {
+		rl = append(rl, lib.ZU(id))
+	}
 	for _, b := range s.Batches {
 		bs = append(bs, fmt.Sprintf("B %s %s %s %s %s %s", lib.ZU(b.Nonce), lib.ZU(b.Timeout), coqTxs(b.Txs), zi(b.Token), zi(b.FeeRcv), lib.ZU(b.Block)))
 	}
@@ -102,9 +107,9 @@ func coqObs(ok bool, s Snap) string {
 	for _, e := range s.Events {
 		ev = append(ev, lib.Pair(lib.Z(e[0]), lib.Z(e[1])))
 	}
-	return fmt.Sprintf("mk_obs %s %s %s %s %s %s %s %s %s %s %s %s %s %s %s %s", lib.Bool(ok), coqTxs(s.Pool), lib.List(bs), lib.List(bb),
+	return fmt.Sprintf("mk_obs %s %s %s %s %s %s %s %s %s %s %s %s %s %s %s %s %s", lib.Bool(ok), coqTxs(s.Pool), lib.List(bs), lib.List(bb),
 		lib.ZU(s.Ctr[0]), lib.ZU(s.Ctr[1]), lib.ZU(s.Ctr[2]), lib.List(cs), lib.List(sn), lib.List(fm), lib.List(pd),
-		lib.ZU(s.Evn), lib.ZU(s.Ext), lib.ZU(s.Fx), lib.List(bl), lib.List(ev))
+		lib.ZU(s.Evn), lib.ZU(s.Ext), lib.ZU(s.Fx), lib.List(bl), lib.List(rl), lib.List(ev))
 }
 
 func coqCase(w *World, steps []string) string {
